@@ -42,5 +42,5 @@ Theorem C16_heap_merge_error :
   forall its : list (N * @stream K V),
     (exists c s e, In (c, s) its /\ In (Err e) s) ->
     exists e, merge_all cmp its = Err e.
-Proof. intros K V cmp L. exact (heap_merge_error cmp L). Qed.
+Proof. intros K V cmp _. exact (heap_merge_error cmp). Qed.
 Print Assumptions C16_heap_merge_error.
